@@ -101,7 +101,8 @@ def call_closure(repo, keys, depth=None):
 # the call-graph closure: "P's code reaches helper H" does not make every clause about H a clause of P.
 SHARE = {
     'C01': [('C06.2', 'inc/exc are table operations of the statement (masking / filtering returns a new rectangular table)'),
-            ('C06.9', 'keyword criteria of inc/exc select rows by the value given, whatever its truth value')],
+            ('C06.9', 'keyword criteria of inc/exc select rows by the value given, whatever its truth value'),
+            ('C06.4', 'a filter that leaves no row still returns a table with all its columns')],
     'C02': [('C07.2', 'the merge walks the keys with cmp: it must be antisymmetric'), ('C07.3', 'int/float and NaN keys are equal under cmp'),
             ('C07.10', 'keys are compared after as_primitive'), ('C07.11', 'identical unorderable keys (None) are equal')],
     'C03': [('C19.3', 'nested list/dict arguments are aligned member by member by the loop lifting')],
